@@ -20,7 +20,7 @@ SEARCHES = {
     'C08': ['c08-search'],
     'C10': ['c08-search', 'c11-search', 'c10s-search'],
     'C11': ['c11-search', 'c02-search'],
-    'C12': ['c12-search'],
+    'C12': ['c12-search', 'c13-search', 'c08-search'],
     'C13': ['c13-search'],
     'C15': ['c15-search'],
     'C17': ['c17-search', 'c01-search'],
